@@ -88,6 +88,12 @@ func (e *Eng) actAuthorize() {
 		// the user consents to the first audience only
 		grantedAud = aud[:1:1]
 	}
+	var defaultAud []string
+	if len(aud) == 0 && rapid.IntRange(0, 5).Draw(t, "defaultAudienceFromConsent") == 0 {
+		// the consent step adds a default audience the client did not ask for (it is registered for it)
+		defaultAud = []string{"https://api.example/v1"}
+		grantedAud = defaultAud
+	}
 	q := url.Values{"client_id": {client}, "response_type": {rtype}, "state": {"state-0123456789"}, "nonce": {"nonce-0123456789"}}
 	if len(scopes) > 0 {
 		q.Set("scope", strings.Join(scopes, " "))
@@ -100,8 +106,11 @@ func (e *Eng) actAuthorize() {
 	}
 	subject := fmt.Sprintf("user-%d", len(e.grants)+1)
 	sess := e.sessFor(subject)
-	res := e.w.Authorize(q, h.Consent{Session: sess, Scopes: append([]string{}, granted...), Audience: append([]string{}, grantedAud...)})
+	res := e.w.Authorize(q, h.Consent{Session: sess, Scopes: append([]string{}, granted...), Audience: append([]string{}, grantedAud...), ExtraAudience: defaultAud})
 	e.step("authorize:" + rtype)
+	if defaultAud != nil {
+		e.label("default-audience-granted-by-consent")
+	}
 	if e.w.Cfg.IsPushedAuthorizeEnforced {
 		e.label("plain-authorize-under-par-enforcement")
 		if res.Code != "" || res.Access != "" || res.IDToken != "" {
@@ -319,6 +328,7 @@ func (e *Eng) actRedeem() {
 			e.viol("C02/redirect-mismatch-redeemed", "%v bound to redirect_uri %q was redeemed with %q", code, g.Redirect, redirect)
 		case has("expired"):
 			e.viol("C07/expired-code-honoured", "%v expired at %v and was redeemed at %v", code, code.Expiry, h.Now())
+			e.viol("C02/expired-code-redeemed", "%v expired at %v and was redeemed at %v", code, code.Expiry, h.Now())
 		}
 		// resynchronise: treat as a successful redemption
 		if tr.OK() {
@@ -615,6 +625,11 @@ func (e *Eng) actRevoke() {
 	}
 	state, _ := e.effective(c)
 	stored := c.Exp // ignoring time: is the record still live in the store?
+	if stored == Active && c.Pruned == 2 {
+		stored = Inactive // the row of the expired access token is gone: an unknown token for the store
+	} else if stored == Active && c.Pruned == 1 {
+		stored = Unspec
+	}
 	// now and then one of the two revoking writes fails (lost connection): the endpoint may answer an error, but if it
 	// *accepts* the request the statement's consequence must hold all the same
 	faultAt := ""
@@ -789,6 +804,24 @@ func (e *Eng) actAdvance() {
 		d = time.Duration(rapid.SampledFrom([]int{1, 10, 45, 100, 600, 1000, 3700, 90000, 2700000}).Draw(t, "secs")) * time.Second
 	}
 	h.Advance(d)
+	if e.w.Tx != nil && rapid.IntRange(0, 2).Draw(t, "storeHousekeeping") == 0 {
+		// the store's housekeeping removes access-token rows whose own expiry has passed (they are inactive anyway)
+		if n := e.w.Tx.PruneExpiredAccessTokens(h.Now().Add(-10 * time.Second)); n > 0 {
+			e.label("store-pruned-expired-access-tokens")
+			e.logf("store housekeeping removed %d expired access-token rows", n)
+		}
+		for _, c := range e.creds {
+			if c.Kind != "access" || c.Expiry.IsZero() {
+				continue
+			}
+			switch age := h.Now().Sub(c.Expiry); {
+			case age > 12*time.Second:
+				c.Pruned = 2
+			case age > 8*time.Second && c.Pruned == 0:
+				c.Pruned = 1
+			}
+		}
+	}
 	e.step("advance")
 	e.logf("advance %v", d)
 	e.label("advance")
